@@ -56,8 +56,8 @@ CHECKS = {
    text="For all ordered pairs of recorded versions (all up to 12, sampled beyond; 'to' omitted included) the rows of s3db_changes must be rows of B with identical values and contain every row of B that is absent from or different in A, without error; for sampled differing pairs an injected storage error at every request position of the diff must give an error or an answer satisfying the same inclusions.",
    note="R = diff is not demanded. Fault sweep is exhaustive per sampled pair only."),
  "C01": dict(level="exploration", design="§4 C01",
-   technique="runtime monitoring: model-free convergence oracle - dumps of all opens that merged the same version set must be equal - under harness-chosen merge permutations (hook H2), withheld/revealed commits, partial merges and re-merged ancestors; request-log quiescence check",
-   text="Version sets with 3-6 frontier versions forked from different ancestors are merged under 8 schedules each: every permutation of the version list (all n! up to 4, sampled beyond), intermediate openers committing partial merges, retired ancestors put back, commits revealed one at a time. All dumps must be identical; a second read-write open must issue no PUT under root/ and keep s3db_version(). Exploration: version sets and schedules are sampled; permutations are exhausted for lists up to 4.",
+   technique="runtime monitoring: model-free convergence oracle - dumps of all opens that merged the same version set must be equal - under harness-chosen merge permutations (hook H2), withheld/revealed commits, partial merges and re-merged ancestors; request-log quiescence check; order/grouping/repetition oracle over direct calls of the row merge function with nanosecond-distinct write times",
+   text="Version sets with 3-6 frontier versions forked from different ancestors are merged under 8 schedules each: every permutation of the version list (all n! up to 4, sampled beyond), intermediate openers committing partial merges, retired ancestors put back, commits revealed one at a time. All dumps must be identical; a second read-write open must issue no PUT under root/ and keep s3db_version(). Exploration: version sets and schedules are sampled; permutations are exhausted for lists up to 4. Appended cases fold 3-4 writers' rows of one key (built from UPDATE/DELETE/INSERT statement rows with sub-second write times, as the Go API allows) through MergeRows in every order and grouping and once more with a version already merged: every fold must show the same row.",
    note="Only visible rows are compared; equal write times on one key are not generated; trusts the instrumented store and hook H2 (identity when unset)."),
  "C15": dict(level="exploration", design="§4 C15",
    technique="runtime monitoring: dump equality before/after byte-identical retries + M-row model; decoded stamps from the bucket vs the write_time in force; s3db_conn read-back; expired-deadline behaviour",
@@ -77,7 +77,7 @@ CHECKS = {
    note="Trusts native SQLite as the reference; untyped columns; numerically equal INT/REAL keys and '' are left to C07/C08; cache-on multi-level cases are covered by known finding D19."),
  "C07": dict(level="exploration", design="§4 C07",
    technique="runtime monitoring: Key.Order and table behaviour compared with SQLite's own comparison of bound values; order axioms on triples; process liveness per case",
-   text="Boundary-heavy and random key pairs/triples of all four storage classes: sign of Key.Order vs SQLite's '<,=,>' on the bound values, antisymmetry/transitivity/equality axioms, ORDER BY and point lookups on trees of entries_per_node 2..16 vs a native table, and SQLite-equal pairs (INT n/REAL n.0, +-0) inserted in both orders into trees of varying depth (second insert must be a constraint failure, no twin, no crash). Worker death or hang during a case is a violation.",
+   text="Boundary-heavy and random key pairs/triples of all four storage classes: sign of Key.Order vs SQLite's '<,=,>' on the bound values, antisymmetry/transitivity/equality axioms, ORDER BY and point lookups on trees of entries_per_node 2..16 vs a native table, and SQLite-equal pairs (INT n/REAL n.0, +-0) inserted in both orders into trees of varying depth (second insert must be a constraint failure, no twin, no crash; an UPDATE that assigns the key its equal value of the other representation must land on that one row or be refused without effect). Worker death or hang during a case is a violation.",
    note="Trusts SQLite's comparison as the reference order; NaN not generated (SQLite binds it as NULL); cross-writer twins (two writers inserting INT n and REAL n.0 concurrently) are not generated."),
  "C16": dict(level="exploration", design="§4 C16",
    technique="runtime monitoring: independent offline decoder over the bucket after every commit + online immutability assertion in the instrumented store + cache-less re-read; failing PUTs during commits; replay-after-vacuum epilogue (node cache on/off)",
